@@ -30,6 +30,12 @@ class Ctx:
         raise AttributeError(name)
 
     # helpers ---------------------------------------------------------
+    def lemma(self, st, name, g):
+        """cut rule: prove g once (own obligation), then use it as a hypothesis of the later ones"""
+        if self.side == "verify":
+            self.eng.oblige(st, "%s.lemma.%s" % (self.con.name(), name), g, kind="lemma")
+            st.assume(g)
+
     def fld(self, st, obj, name):
         return z3.Select(st.get("idict", a_of(obj)), STR.sid(name))
 
@@ -66,6 +72,7 @@ class Contract:
     kwargs_names = ()    # concrete names to put into **kwargs when verifying
     star_args = ()       # concrete arity for *args when verifying
     reason = ""
+    verify_recv = None   # receiver class used when verifying a contract that callers look up by name only
     raw_args = False     # keep engine-level argument values (functions, tuples) instead of reifying them
 
     def name(self):
@@ -133,6 +140,7 @@ class Contract:
                     env[k] = eng.to_val(st, v)
         c = Ctx(eng, self, st, env)
         nm = self.name()
+        set_mode("prove", st)
         for cn, g in self.pre(c):
             eng.oblige(st, "call-pre.%s.%s" % (nm, cn), g, kind="call-pre")
         mods = list(self.modifies(c))
@@ -143,6 +151,7 @@ class Contract:
         self.havoc(post, mods)
         c.post = post
         c.exc = None
+        set_mode("assume", post)
         c.res = self.result(c)
         if c.res is None:
             c.res = fresh("res_" + nm.replace(".", "_"))
@@ -166,6 +175,7 @@ class Contract:
                 if ecls not in CLS.ids:
                     CLS.add(ecls, ("Exception",))
                 c2.exc = PExc(ecls, None, [], "raised by %s" % nm)
+            set_mode("assume", pe)
             for cn, g in getattr(self, meth)(c2):
                 pe.assume(g)
             pe.note("%s raises %s" % (nm, ecls))
@@ -181,6 +191,7 @@ class Contract:
         for p in a.posonlyargs + a.args + a.kwonlyargs:
             env[p.arg] = fresh("arg_" + p.arg)
             st.assume(z3.Not(is_absent(env[p.arg])))
+            st.assume(z3.Implies(is_ref(env[p.arg]), z3.And(a_of(env[p.arg]) >= 0, a_of(env[p.arg]) < st.alloc)))
         if a.vararg:
             items = [fresh("va%d" % i) for i in range(len(self.star_args))] if not self.star_args or isinstance(self.star_args[0], str) else list(self.star_args)
             env[a.vararg.arg] = PTuple(items)
@@ -189,6 +200,7 @@ class Contract:
             for n in self.kwargs_names:
                 items[n] = fresh("kw_" + n)
                 st.assume(z3.Not(is_absent(items[n])))
+                st.assume(z3.Implies(is_ref(items[n]), z3.And(a_of(items[n]) >= 0, a_of(items[n]) < st.alloc)))
             env[a.kwarg.arg] = PKwargs(items)
         return env
 
@@ -200,13 +212,14 @@ class Contract:
         c = Ctx(eng, self, st, env)
         c.side = "verify"
         nm = self.name()
-        if "self" in env and self.recv:
-            ci = eng.ft.classes[self.recv]
+        if "self" in env and (self.recv or self.verify_recv):
+            ci = eng.ft.classes[self.recv or self.verify_recv]
             eng.pclass(ci.name, ci)
             a = fresh("self_addr", I)
             st.assume(a >= 1000, a < st.alloc)
             env["self"] = vref(a)
             st.assume(st.get("cls_of", a) == CLS.cid(ci.name))
+        set_mode("assume", st)
         self.setup(c)
         for cn, g in self.pre(c):
             st.assume(g)
@@ -225,7 +238,7 @@ class Contract:
         st.env = dict(env)
         eng.cur_target = self
         eng.site = []
-        fx = Fctx(f.module, f.closure, self.recv or (f.owner.qual if f.owner else None), f.info, self, 0, f.owner)
+        fx = Fctx(f.module, f.closure, self.recv or self.verify_recv or (f.owner.qual if f.owner else None), f.info, self, 0, f.owner)
         fx.entry_ctx = c
         pos = []
         rs = self.run_body(eng, st, f, fx)
@@ -235,6 +248,7 @@ class Contract:
             cc = Ctx(eng, self, entry, env)
             cc.side = "verify"
             cc.post = r.st
+            set_mode("prove", r.st)
             if r.kind == "ok":
                 cc.res = r.val
                 for cn, g in self.post(cc):
@@ -257,6 +271,7 @@ class Contract:
                     for cn, g in getattr(self, meth)(cc):
                         eng.oblige(r.st, "%s.exc[%s].%s" % (nm, e.cls or "*", cn), g, kind="exc-post")
         eng.cur_target = None
+        set_mode("assume")
         return npaths
 
     def run_body(self, eng, st, f, fx):
@@ -276,6 +291,35 @@ class Contract:
             else:
                 raise Unsupported("stray %s at function exit" % r.kind)
         return out
+
+
+MODE_HOOKS = []      # lists whose [0] is set to "assume"/"prove" around clause evaluation
+SINK = [None]        # where definitional extensions (fresh == term) made by spec functions are recorded
+
+
+def set_mode(m, sink=None):
+    for h in MODE_HOOKS:
+        h[0] = m
+    if sink is not None:
+        SINK[0] = sink
+
+
+def define(prefix, term):
+    """definitional extension: a fresh constant equal to `term`, recorded in the current sink state"""
+    if SINK[0] is None:
+        raise RuntimeError("definition outside clause evaluation")
+    st = SINK[0]
+    defs = st.ghost.get("defs", {})
+    hit = defs.get(term.get_id())
+    if hit is not None and hit[0].eq(term):
+        return hit[1]
+    c = fresh(prefix, term.sort())
+    st.assume(c == term)
+    st.ghost = dict(st.ghost)
+    defs = dict(defs)
+    defs[term.get_id()] = (term, c)
+    st.ghost["defs"] = defs
+    return c
 
 
 REGISTRY = {}
